@@ -550,8 +550,8 @@ class G:
     entities_enabled = False
 
 
-def build_form(draw, P):
-    g = G(draw, P)
+def build_form(draw, P, g=None):
+    g = g or G(draw, P)
     lang_mode = P.get("langs", "some")
     if lang_mode == "some" and g.p("_", P.get("p_multilang", 0.45)):
         k = g.integer(1, P.get("max_langs", 3))
